@@ -26,8 +26,53 @@ pub fn make_mmio(version: u32, device_id: u32, config_len: usize) -> Result<Mmio
     unsafe { MmioTransport::new(header_ptr(), 0x100 + config_len) }.map_err(|e| format!("{e:?}"))
 }
 
+thread_local! {
+    /// The device's QueueSel register when the capture of the current operation started.
+    static SEL_AT_START: std::cell::Cell<Option<u32>> = const { std::cell::Cell::new(None) };
+}
+
 fn cap_start() {
-    with(|w| w.bus.capture = Some(Vec::new()));
+    with(|w| {
+        w.bus.capture = Some(Vec::new());
+        SEL_AT_START.with(|c| c.set(w.bus.dev.as_ref().map(|d| d.queue_sel)));
+    });
+}
+
+/// Registers that belong to the queue named by QueueSel.
+const PER_QUEUE_REGS: [u64; 11] = [0x34, 0x38, 0x3c, 0x40, 0x44, 0x80, 0x84, 0x90, 0x94, 0xa0, 0xa4];
+
+/// The statement asks that the queue is *selected* before any per-queue register is used, not
+/// that QueueSel is written every time: a transport that remembers the selection correctly is
+/// fine. So QueueSel writes are judged by their effect - at every per-queue access the device's
+/// QueueSel must name the queue the operation is about - and removed from the trace; exact
+/// repetitions (a read repeating an identical earlier read of the operation, a write repeating
+/// the last write to that register) are removed too, they change nothing.
+fn normal_form(op: &str, trace: &[MmioAcc], about: Option<u64>, judge: bool) -> Vec<MmioAcc> {
+    let mut sel = SEL_AT_START.with(|c| c.get()).map(u64::from);
+    let mut out: Vec<MmioAcc> = Vec::new();
+    for a in trace {
+        if a.write && a.off == 0x30 {
+            sel = Some(a.value);
+            continue;
+        }
+        if judge && PER_QUEUE_REGS.contains(&a.off) && about.is_some() && sel != about {
+            violation(
+                "mmio-trace",
+                op,
+                format!("{op}: {} accessed while QueueSel is {sel:?}; the operation is about queue {} [{}]", reg_name(a.off as u32), about.unwrap(), fmt_trace(trace)),
+            );
+            return trace.to_vec();
+        }
+        let dup = if a.write { out.iter().rev().find(|b| b.write && b.off == a.off).is_some_and(|b| b == a) } else { out.iter().any(|b| b == a) };
+        if !dup {
+            out.push(a.clone());
+        }
+    }
+    out
+}
+
+fn queue_of(want: &[MmioAcc]) -> Option<u64> {
+    want.iter().find(|a| a.write && a.off == 0x30).map(|a| a.value)
 }
 fn cap_take() -> Vec<MmioAcc> {
     with(|w| w.bus.capture.take().unwrap_or_default())
@@ -48,13 +93,21 @@ fn r32(off: u64, value: u64) -> MmioAcc {
 }
 
 fn expect_exact(op: &str, got: &[MmioAcc], want: &[MmioAcc]) {
-    if got != want {
+    let about = queue_of(want);
+    let (g, w) = (normal_form(op, got, about, true), normal_form(op, want, about, false));
+    if g != w && !violated() {
         violation("mmio-trace", op, format!("{op}: register accesses [{}], specification prescribes [{}]", fmt_trace(got), fmt_trace(want)));
     }
 }
 
 /// `got` must be `first`, then the members of `middle` in any order (each exactly once), then `last`.
 fn expect_framed(op: &str, got: &[MmioAcc], first: &[MmioAcc], middle: &[MmioAcc], last: &[MmioAcc]) {
+    let about = queue_of(first);
+    let got = &normal_form(op, got, about, true)[..];
+    let first = &normal_form(op, first, about, false)[..];
+    if violated() {
+        return;
+    }
     let ok = got.len() == first.len() + middle.len() + last.len() && got[..first.len()] == *first && got[got.len() - last.len()..] == *last && {
         let mut m: Vec<&MmioAcc> = got[first.len()..got.len() - last.len()].iter().collect();
         let mut w: Vec<&MmioAcc> = middle.iter().collect();
@@ -305,18 +358,29 @@ pub fn ops<T: Transport>(mut t: T, version: u32, device_id: u32, n_ops: u64) {
                 }
             }
             11 => {
-                let isr = choose(4) as u32;
+                // mostly the two defined causes; sometimes bits the driver does not know (a newer
+                // device): whatever was read is what has to be acknowledged
+                let isr = match choose(6) {
+                    0 => 4 + choose(4) as u32,
+                    1 => (1u32 << (2 + choose(30))) | choose(4) as u32,
+                    _ => choose(4) as u32,
+                };
                 with(|w| w.tr.isr = isr);
                 cap_start();
                 let got = t.ack_interrupt();
                 let tr = cap_take();
                 oplog(|| format!("ack_interrupt with InterruptStatus={isr:#x} -> {:#x}", got.bits()));
                 if isr == 0 {
-                    expect_exact("ack_interrupt", &tr, &[r32(0x60, 0)]);
+                    // nothing to acknowledge: not writing InterruptACK and writing 0 are the same
+                    if tr.len() == 2 {
+                        expect_exact("ack_interrupt", &tr, &[r32(0x60, 0), w32(0x64, 0)]);
+                    } else {
+                        expect_exact("ack_interrupt", &tr, &[r32(0x60, 0)]);
+                    }
                 } else {
                     expect_exact("ack_interrupt", &tr, &[r32(0x60, isr as u64), w32(0x64, isr as u64)]);
                 }
-                if got.bits() != isr {
+                if got.bits() != isr & 3 {
                     violation("mmio-value", "ack_interrupt", format!("InterruptStatus {isr:#x}, returned {:#x}", got.bits()));
                 }
                 if with(|w| w.tr.isr) != 0 {
